@@ -454,6 +454,17 @@ def tie(ctx):
         if same and dec["kind"] == "solve":
             same = o["max_cn"] == dec["max_cn"]
         stats["decision_" + dec["kind"]] += 1
+        # the property itself: a user-supplied structure is used verbatim, an unknown configuration is rejected
+        if case["user"]:
+            g0, _ = instances.load_gene(case["gene"])
+            inp_d = {k: v for k, v in case.items() if k != "gene"} | {"gene": case["gene"]}
+            unknown = [c for c in case["user"] if c not in g0.cn_configs]
+            if unknown and dec["kind"] != "unknown":
+                violations.append({"why": f"user-supplied structure {case['user']} names the unknown configuration {unknown[0]} but estimate_cn answers {dec}", "input": inp_d,
+                                   "signature": "c03:unknown_configuration_accepted"})
+            elif not unknown and (dec["kind"] != "user" or dec["sol"] != sorted(case["user"])):
+                violations.append({"why": f"user-supplied structure {sorted(case['user'])} is not used verbatim: estimate_cn answers {dec} (copy-number support of the gene: {case['do_copy_number']})",
+                                   "input": inp_d, "signature": "c03:user_structure_not_verbatim"})
         if not same:
             fam["cn_decision"]["disagreements"].append({"why": f"estimate_cn decided {dec} but the model decides {o}", "input": {k: v for k, v in case.items() if k != 'gene'} | {"gene": case["gene"].get("kind")}})
     return {"families": fam, "violations": violations, "evaluations": len(runs) + len(fruns) + len(druns), "distinct_nontrivial": len(distinct),
